@@ -21,6 +21,20 @@ pub fn prog_case(em: &mut Emitter, sid: u32, mode: u8, ps: &[Prog], data: &[u8],
                 o = Oracle::Fail("outcome-depends-on-how-the-source-delivers".into());
             }
         }
+        // the same program one level further in: the whole input inside one more SEQUENCE of definite and of
+        // indefinite length (whichever the mode allows). Where the plain run succeeded and used up the input, the
+        // run inside the SEQUENCE succeeds with the same log behind the SEQUENCE's own entry.
+        let d18 = matches!(&o, Oracle::Fail(t) if t.starts_with("D18-"));   // known finding of C11: the run itself is fine to build on
+        if (matches!(o, Oracle::Pass) || d18) && obs.len() >= 2 && obs[0] == 0 && obs[1] == 0 && data.len() < 2000 {
+            let ps2 = vec![Prog::Take { opt: false, kind: 2, exp: Some((0, 16)), body: Body::Prog(ps.to_vec()) }];
+            let mut want = vec![0i128, 0, 1, 1, 0x30]; want.extend_from_slice(&obs[2..]);
+            for ctx in [Ctx::Definite, Ctx::Indefinite] {
+                if !ctx_ok(mode, ctx) { continue }
+                // a capture at the outermost level of the program would meet the new SEQUENCE's end-of-contents: known finding D18 (C11)
+                if ctx == Ctx::Indefinite && ps.iter().any(|p| matches!(p, Prog::Capture(_) | Prog::CaptureAll)) { continue }
+                if run_slice(mode, &ps2, &wrap(ctx, data)) != want { o = Oracle::Fail("outcome-changes-inside-one-more-enclosing-sequence".into()); break }
+            }
+        }
         (ints_of(&obs), o, nt)
     });
 }
